@@ -804,12 +804,14 @@ func childMain(path string) {
 	// probes and requests are derived from the actual creation times with the scenario's own PRNG
 	r := vh.NewRNG(sc.Seed)
 	var all []realDoc
+	owner := map[realDoc]string{}
 	pset := map[uint64]bool{0: true, two63 - 1: true, maxU64: true}
 	for _, f := range fracs {
 		pset[f.ct], pset[f.ct-86_400_000], pset[f.ct-86_400_001], pset[f.ct-600_000] = true, true, true, true
 		for _, b := range f.bulks {
 			for _, d := range b {
 				all = append(all, d)
+				owner[d] = f.name
 				pset[d.mid], pset[d.mid+1], pset[d.mid-1] = true, true, true
 				pset[d.mid/60_000*60_000], pset[d.mid/60_000*60_000+59_999] = true, true
 			}
@@ -949,8 +951,16 @@ func childMain(path string) {
 			}
 			req := &pb.FetchRequest{}
 			var idsS, relS []string
+			hints := q%4 == 3 // the proxy's second phase: every ID carries the name of the fraction that reported it
+			if hints {
+				class += ",hints"
+			}
 			for _, id := range ids {
-				req.Ids = append(req.Ids, id.String())
+				if hints {
+					req.IdsWithHints = append(req.IdsWithHints, &pb.IdWithHint{Id: id.String(), Hint: owner[realDoc{uint64(id.MID), uint64(id.RID)}]})
+				} else {
+					req.Ids = append(req.Ids, id.String())
+				}
 				idsS = append(idsS, fmt.Sprintf("%d.%d", uint64(id.MID), uint64(id.RID)))
 				relS = append(relS, fmt.Sprintf("%s.%d", rel(uint64(id.MID)), uint64(id.RID)))
 			}
@@ -1078,7 +1088,7 @@ func genScenario(r *vh.RNG, name string, wrap bool, thorough bool) scenario {
 	return sc
 }
 
-// the DESIGN-independent witness of Props/C14.c14_wrap_counterexample on the real store: a sealed fraction whose
+// regression scenario for the defect fixed by c7b3453 (Props/C14.c14_wrap_counterexample_before_fix): a sealed fraction whose
 // oldest document sits in bucket 1 of its distribution, fetched together with an unknown ID whose MID is >= 2^63
 func witnessScenario(seed int64) scenario {
 	return scenario{Name: "witness-wrap", Seed: seed, Queries: 12, Fetches: 12, Wrap: true, Fracs: []fracSpec{
@@ -1152,10 +1162,10 @@ func systemOracle(o vh.Opts, rep *vh.Report, scs []scenario) {
 				}
 			case "F":
 				// F stage q class ids status missing=
-				fo.Case(sc.Name+"/"+f[1]+"/"+f[2]+"/"+f[4], f[3] != "present-only", "stage="+f[1], "class="+f[3], "status="+f[5])
+				fo.Case(sc.Name+"/"+f[1]+"/"+f[2]+"/"+f[4], !strings.HasPrefix(f[3], "present-only"), "stage="+f[1], "class="+f[3], "status="+f[5])
 				if f[5] != "ok" || f[6] != "missing=-" {
 					class := "present-document-not-fetched"
-					if f[3] == "with-unknown-mid>=2^63" {
+					if strings.HasPrefix(f[3], "with-unknown-mid>=2^63") {
 						class = "range-crosses-int64-boundary"
 					}
 					site := "fracmanager/fetcher.go:groupIDsByFraction"
